@@ -160,6 +160,9 @@ def run_case(case):
             except BaseExceptionGroup as grp:
                 rec("ret", wid, sorted(classify(e) for e in grp.exceptions), done_flags(set0))
                 raise
+            except asyncio.CancelledError:       # the awaiter of stop() was cancelled / timed out
+                rec("abort", wid, done_flags(set0))
+                raise
             rec("ret", wid, "ok", done_flags(set0))
 
         async def wait(self):
@@ -175,6 +178,9 @@ def run_case(case):
                 await super().wait()
             except BaseExceptionGroup as grp:
                 rec("ret", wid, sorted(classify(e) for e in grp.exceptions), done_flags(set0))
+                raise
+            except asyncio.CancelledError:
+                rec("abort", wid, done_flags(set0))
                 raise
             rec("ret", wid, "ok", done_flags(set0))
 
@@ -334,7 +340,14 @@ def run_case(case):
 
     async def do_with(actor, spec):
         me = asyncio.current_task()
-        info = {"set0": None}
+        info = {"set0": None, "exit_fired": False}
+
+        def fire_exit():
+            if not me.done():
+                flush()
+                info["exit_fired"] = True
+                rec("awcancel", 0)
+                me.cancel()
         if spec["end"] == "cancel":
             loop.call_later(spec["dur"] / 1000.0, me.cancel)
         raised, how = [], "ok"
@@ -348,6 +361,8 @@ def run_case(case):
                     flush()
                     info["set0"] = sorted(tid_of[t] for t in actor._tasks)
                     rec("withleave", actor.idx, spec["end"], info["set0"])
+                    if "exit_cancel_after" in spec:      # the task executing __aexit__ is cancelled meanwhile
+                        loop.call_later(spec["exit_cancel_after"] / 1000.0, fire_exit)
         except BodyError:
             how = "body-error"
         except asyncio.CancelledError:
@@ -356,7 +371,39 @@ def run_case(case):
             how = "group"
             raised = sorted(classify(e) for e in grp.exceptions)
         set0 = info["set0"] or []
-        rec("withdone", actor.idx, set0, done_flags(set0), raised, how, spec["end"])
+        rec("withdone", actor.idx, set0, done_flags(set0), raised, how, spec["end"], info["exit_fired"])
+
+    async def do_call(fn, kind, a_idx, spec):
+        """await actor.stop() / actor.wait(); the awaiting task may itself be cancelled after `cancel_after` ms
+        or the call be wrapped in asyncio.timeout(`timeout` ms)."""
+        me = asyncio.current_task()
+        wid = _new("wid")
+        wid_of_task[me] = wid
+        fired = {"v": False}
+
+        def fire():
+            if not me.done():
+                flush()
+                fired["v"] = True
+                rec("awcancel", wid)
+                me.cancel()
+        if spec and "cancel_after" in spec:
+            loop.call_later(spec["cancel_after"] / 1000.0, fire)
+        how = "ok"
+        t_call = now_us()
+        try:
+            if spec and "timeout" in spec:
+                async with asyncio.timeout(spec["timeout"] / 1000.0):
+                    await fn()
+            else:
+                await fn()
+        except BaseExceptionGroup:
+            how = "group"
+        except TimeoutError:
+            how = "timeout"
+        except asyncio.CancelledError:
+            how = "cancelled"
+        rec("opdone", wid, kind, how, fired["v"], t_call, spec or {})
 
     async def call_op(coro_fn):
         try:
@@ -386,9 +433,9 @@ def run_case(case):
             elif kind == "cancel":
                 actors[op[2]].cancel()
             elif kind == "stop":
-                harness_tasks.append(asyncio.create_task(call_op(actors[op[2]].stop)))
+                harness_tasks.append(asyncio.create_task(do_call(actors[op[2]].stop, "stop", op[2], op[3] if len(op) > 3 else None)))
             elif kind == "wait":
-                harness_tasks.append(asyncio.create_task(call_op(actors[op[2]].wait)))
+                harness_tasks.append(asyncio.create_task(do_call(actors[op[2]].wait, "wait", op[2], op[3] if len(op) > 3 else None)))
             elif kind == "add":
                 a = actors[op[2]]
                 counters["tid"] += 1
@@ -530,7 +577,11 @@ def c_event(e, actor_of_call=None):
     elif k == "cawcall":
         ev = f"GCawCall {cnat(e[2])} {cnat(e[3])} {nl(e[4] or [])}"
     elif k == "withdone":
+        if e[8]:         # the exit itself was cancelled: __aexit__ raised CancelledError, no guarantee about the tasks
+            return None
         ev = f"GWithDone {cnat(e[2])} {nl(e[3])}"
+    elif k == "abort":
+        ev = f"GCallCancelled {cnat(e[2])}"
     else:
         return None
     return f"({cZ(t)}, {ev})"
@@ -668,7 +719,14 @@ def gen_case(rng):
                 if ops[-1][1] == "stop":
                     ops[-1] = ops[-1][:3]
         elif k == "with":
-            ops.append([t, "with", a, {"dur": rng.choice([0, 10, 500, 1500, 2500]), "end": rng.choice(["ok", "raise", "cancel"])}])
+            spec = {"dur": rng.choice([0, 10, 500, 1500, 2500]), "end": rng.choice(["ok", "raise", "cancel"])}
+            if rng.random() < 0.35:
+                spec["exit_cancel_after"] = rng.choice([0, 1, 50, 99, 100, 150])
+            ops.append([t, "with", a, spec])
+        elif k in ("stop", "wait") and rng.random() < 0.35:
+            # the task awaiting stop()/wait() is itself cancelled, or the call is under asyncio.timeout()
+            d = rng.choice([0, 1, 50, 99, 100, 101, 150, 1000])
+            ops.append([t, k, a, {"cancel_after": d} if rng.random() < 0.6 else {"timeout": d}])
         elif k == "add":
             ops.append([t, "add", a, gen_extra(rng)])
         elif k == "run":
@@ -724,7 +782,7 @@ def exhaustive_cases(maxlen):
     """All words up to [maxlen] over a small alphabet of injected calls at the same instant structure:
     one actor with a failing-then-returning script; letters advance time or call something."""
     scripts = [[{"awaits": [1000], "end": "exc", "on_cancel": ["slowexc"]}, {"awaits": [1000], "end": "ret", "on_cancel": []}]]
-    letters = [("start",), ("stop",), ("cancel",), ("wait",), ("add",), ("caw",), ("t", 500), ("t", 2000)]
+    letters = [("start",), ("stop",), ("stopc",), ("cancel",), ("wait",), ("add",), ("caw",), ("t", 500), ("t", 2000)]
     extra = {"awaits": [1500], "end": "exc", "on_cancel": ["slowexc"]}
     for limit, delay in ((None, None), (0, None), (1, {"how": "subclass", "ms": 500})):
         for n in range(1, maxlen + 1):
@@ -740,6 +798,8 @@ def exhaustive_cases(maxlen):
                         ops.append([t, "add", 0, extra])
                     elif l[0] == "caw":
                         ops.append([t, "caw", 0, 1])      # the most recently added task (else the loop task)
+                    elif l[0] == "stopc":                 # stop() whose awaiter is cancelled in the middle of the tasks' cleanup
+                        ops.append([t, "stop", 0, {"cancel_after": 50}])
                     else:
                         ops.append([t, l[0], 0])
                 yield {"actors": [with_delay({"limit": limit, "script": scripts[0]}, delay)], "ops": ops, "settle_ms": 0}
@@ -809,6 +869,12 @@ def boundary_cases():
         {"actors": [{**A(1, [S([100], "exc"), S([100], "ret")]), "delay": {"how": "subclass", "ms": 7000}},
                     {**A(1, [S([100], "exc"), S([100], "ret")]), "delay": {"how": "base"}}],
          "ops": [[0, "run", [0, 1]], [5000, "wait", 0]], "settle_ms": 9000},
+        # the awaiter of stop() / of the `async with` exit is cancelled or timed out while the tasks are still cleaning up
+        {"actors": [A(None, [S([5000], "ret", ["slowprop"])])], "ops": [[0, "start", 0], [10, "stop", 0, {"cancel_after": 50}]], "settle_ms": 500},
+        {"actors": [A(0, [S([5000], "ret", ["slowexc"])])], "ops": [[0, "start", 0], [10, "stop", 0, {"timeout": 50}]], "settle_ms": 500},
+        {"actors": [A(None, [S([5000], "ret", ["slowprop"])])], "ops": [[0, "start", 0], [10, "wait", 0, {"cancel_after": 50}], [200, "stop", 0, {"cancel_after": 100}]], "settle_ms": 500},
+        {"actors": [A(None, [S([5000], "ret", ["slowbase"])])], "ops": [[0, "with", 0, {"dur": 100, "end": "ok", "exit_cancel_after": 50}]], "settle_ms": 500},
+        {"actors": [A(None, [S([5000], "ret", ["slowprop"])])], "ops": [[0, "with", 0, {"dur": 100, "end": "raise", "exit_cancel_after": 0}]], "settle_ms": 500},
         # default restart limit (unbounded)
         {"actors": [A("default", [S([], "exc")] * 6 + [S([], "ret")])], "ops": [[0, "start", 0]], "settle_ms": 15000},
     ]
@@ -896,6 +962,12 @@ class ActorStream(Stream):
                 out.append("caw_on_" + ("done_task" if e[5] else ("task_already_being_cancelled" if e[6] else "running_task")))
             if e[1] == "withdone":
                 out.append("with_body_" + e[7])
+                if e[8]:
+                    out.append("with_exit_cancelled")
+            if e[1] == "abort":
+                out.append("awaiter_cancelled_while_tasks_" + ("done" if all(e[3]) else "still_running"))
+            if e[1] == "opdone" and e[7]:
+                out.append("call_under_" + ("timeout" if "timeout" in e[7] else "awaiter_cancel"))
         if any("slow" in r for a in case["actors"] for sp in a["script"] for r in sp.get("on_cancel", [])) or \
            any(o[1] == "add" and any("slow" in r for r in o[3].get("on_cancel", [])) for o in case["ops"]):
             out.append("has_slow_cleanup")
